@@ -73,7 +73,11 @@ type txReg struct {
 // a constraint's veto comes in two flavours: a plain error, or a *boltz.RecordNotFoundError (what a
 // constraint returns that looked something up with LoadById and hands that error on)
 func (r txReg) notFoundFlavour() bool { return r.style == 'T' || r.style == 'U' }
-func (r txReg) typed() bool           { return r.style == 't' || r.style == 'T' }
+func (r txReg) typed() bool           { return r.style == 't' || r.style == 'T' || r.style == 'o' }
+
+// style o: the vetoes apply only while the transaction function runs for the first time (the constraint looks at
+// state outside the database): a Db.Batch that fails this way succeeds when bbolt runs the function again
+func (r txReg) firstRunOnly() bool { return r.style == 'o' }
 
 type txVeto struct {
 	kind byte
@@ -393,7 +397,7 @@ func (p *txTokens) step() txStep {
 		default:
 			panic("bad op")
 		}
-	case "fail", "ac":
+	case "fail", "fail1", "ac":
 		s.tag = p.nat()
 	case "ap":
 		s.tag = p.nat()
@@ -528,6 +532,7 @@ type txRun struct {
 	async    []string
 	ca       map[uint64][]string
 	bodyGoid uint64
+	curRun   int // how often the transaction function of the running transaction has been started
 
 	// fault injection for the running operation
 	fault       string
@@ -718,6 +723,9 @@ func (c *txConstraintCore) pre(kind boltz.EntityEventType, id string, parentEven
 	c.r.mu.Unlock()
 	for _, v := range c.reg.vetoes {
 		if v.kind == txKindChar(kind) && v.id == id {
+			if c.reg.firstRunOnly() && c.r.curRun != 1 {
+				continue
+			}
 			if c.reg.notFoundFlavour() {
 				return boltz.NewNotFoundError(txVetoEntityType, string(c.store), strconv.Itoa(c.idx))
 			}
@@ -1119,6 +1127,12 @@ func (r *txRun) runSteps(ctx boltz.MutateContext, steps []txStep, i int) (int, e
 			}
 		case "fail":
 			return i, &txCallerErr{tag: s.tag}
+		case "fail1":
+			// fails the first time the transaction function executes it; the flag is the run counter of the
+			// function, kept outside the database
+			if r.curRun == 1 {
+				return i, &txCallerErr{tag: s.tag}
+			}
 		case "ac":
 			tag := s.tag
 			ctx.AddCommitAction(func() {
@@ -1191,6 +1205,7 @@ func (r *txRun) runTx(tx txTx, ctx boltz.MutateContext, baseline int) string {
 	body := func(c boltz.MutateContext) error {
 		runs++
 		r.mu.Lock()
+		r.curRun = runs
 		r.bodyGoid = txGoid()
 		r.mu.Unlock()
 		_, err := r.runSteps(c, tx.steps, 0)
